@@ -105,7 +105,7 @@ class Emitter:
 		*p = nil
 		return
 	}
-	*p = vrt.Bytes(name, c-1)
+	*p = userBytes(name, c-1)
 }''' % h)
             o.append('func ref_%s(x []byte) *RVal { return rBin(x) }' % h)
             o.append('func walk_%s(x []byte, w *walker, name string, nocopy bool) { w.bin(x, name, nocopy) }' % h)
